@@ -388,7 +388,7 @@ pub fn run(out: &mut dyn Write, seed: u64, only: &str) -> std::io::Result<()> {
                 }
                 let a = after.load(Ordering::SeqCst);
                 worst = worst.max(a);
-                if a > 5000 {
+                if a > 20000 {
                     over += 1;
                 }
             }
@@ -407,16 +407,19 @@ pub fn run(out: &mut dyn Write, seed: u64, only: &str) -> std::io::Result<()> {
                 impl Drop for Tracked {
                     fn drop(&mut self) {
                         LIVE.fetch_sub(1, Ordering::SeqCst);
-                        if self.0 == 1 {
-                            // a slow destructor on one of the matches keeps hand-over windows open
+                        if self.0 == SLOW.load(Ordering::SeqCst) {
+                            // a slow destructor on one of the matches (a different one in every
+                            // attempt) keeps hand-over windows open
                             std::thread::sleep(std::time::Duration::from_micros(200));
                         }
                     }
                 }
-                for _ in 0..attempts {
+                static SLOW: std::sync::atomic::AtomicU64 = std::sync::atomic::AtomicU64::new(1);
+                for attempt in 0..(3 * attempts as u64) {
                     LIVE.store(0, Ordering::SeqCst);
                     let arrived = AtomicUsize::new(0);
                     let m = (threads / 2).max(3) as u64;
+                    SLOW.store(attempt % m, Ordering::SeqCst);
                     let pred = |t: &Tracked| -> bool {
                         if t.0 >= m {
                             return false;
@@ -426,8 +429,14 @@ pub fn run(out: &mut dyn Write, seed: u64, only: &str) -> std::io::Result<()> {
                         while (arrived.load(Ordering::SeqCst) as u64) < m && t0.elapsed() < std::time::Duration::from_millis(3) {
                             std::hint::spin_loop();
                         }
-                        // the later matches report first
-                        std::thread::sleep(std::time::Duration::from_micros(150 * (m - t.0)));
+                        // the order in which the matches are reported varies with the attempt
+                        // (later matches first, earlier first, mixed)
+                        let rank = match attempt % 3 {
+                            0 => m - t.0,
+                            1 => t.0 + 1,
+                            _ => (t.0 * 2 + attempt / 3) % m + 1,
+                        };
+                        std::thread::sleep(std::time::Duration::from_micros(120 * rank));
                         true
                     };
                     let src = (0..3000u64).filter(|x| *x < u64::MAX);
@@ -445,8 +454,8 @@ pub fn run(out: &mut dyn Write, seed: u64, only: &str) -> std::io::Result<()> {
             let name = format!("simultaneous finders threads={} shape={} attempts={}", threads, ["find", "map.filter.first", "flat_map.find"][shape], attempts);
             chk(out, "C13", &name, "every produced value dropped exactly once", || leaked_or_double.clone(), None)?;
             chk(out, "C02", &name, "the first element wins", || wrong.clone(), None)?;
-            // a single slow attempt can be the OS descheduling the finder; three are not
-            chk(out, "C10", &name, "evaluations after a match stay bounded (attempts with more than 5000 of 120000)", || if over >= 3 { Some((over, worst)) } else { None }, None)?;
+            // a few slow attempts can be the OS descheduling the finders; five of thirty are not
+            chk(out, "C10", &name, "evaluations after a match stay bounded (fails if 5 or more of the attempts evaluated more than 20000 of 120000 elements after it)", || if over >= 5 { Some((over, worst)) } else { None }, None)?;
         }
     }
     // several computations at the same time on different threads, and computations started from
